@@ -395,7 +395,9 @@ fn lookup(t: &mut Tracer, r: &mut Rng, cap: usize, part: usize, nparts: usize) {
         // "America/Indiana": a failed lookup of the directory must not change what its zones answer afterwards)
         if gi % 2 == 0 {
             let dir = group[0].rsplit_once('/').map(|(d, _)| d.to_string());
-            let bad = match dir { Some(d) if gi % 4 == 0 => d, _ => "Nowhere/Land".to_string() };
+            // (or the session's first zone in the wrong case: the data lookup is by file name and fails - and that failure must not
+            // stick to the properly spelled name asked next)
+            let bad = match dir { Some(d) if gi % 4 == 0 => d, _ if gi % 6 == 2 => group[0].to_ascii_lowercase(), _ => "Nowhere/Land".to_string() };
             t.call("Tzdb.table", json!({"zone": bad}));
             t.call("Tzdb.offset", json!({"zone": bad, "t": pt(1_000_000_000, 0)}));
         }
@@ -436,6 +438,11 @@ fn ids(t: &mut Tracer, r: &mut Rng) {
         let mut del = cs.clone(); del.remove(i);
         let mut ins = cs.clone(); ins.insert(i, *r.pick(&['a', 'Z', '_', '/', '0', ' ', '-']));
         let mut rep = cs.clone(); rep[i] = if cs[i] == 'x' { 'y' } else { 'x' };
+        // characters that Unicode case mapping folds onto ASCII letters (KELVIN SIGN -> k, LONG S -> S, dotted capital I -> i...): not names
+        let fold = |from: &[char], to: char| -> Option<String> { n.chars().position(|c| from.contains(&c)).map(|i| n.chars().enumerate().map(|(j, c)| if j == i { to } else { c }).collect()) };
+        for m in [fold(&['k', 'K'], '\u{212A}'), fold(&['s', 'S'], '\u{17F}'), fold(&['i', 'I'], '\u{130}'), fold(&['i'], '\u{131}'), fold(&['a', 'A'], '\u{C5}')].into_iter().flatten() {
+            if r.chance(1, 3) { t.call("Tzdb.check", json!({"chars": chars(&m)})); }
+        }
         let muts: Vec<String> = vec![del.iter().collect(), ins.iter().collect(), rep.iter().collect(), format!("{} ", n), format!("/{}", n),
                                      n.replace('/', "_"), n.replace('_', " "), format!("{}0", n), n[..n.len() - 1].to_string()];
         for _ in 0..3 { let m = r.pick(&muts).clone(); t.call("Tzdb.check", json!({"chars": chars(&m)})); }
